@@ -123,8 +123,8 @@ def vid(v) -> int:
     return int(v.name[1:])
 
 
-def build_y0(g, V, warm=None):
-    """The y0 graph of a case. One graph in five (chosen by the case itself, so reproducibly) is built the way an analyst edits a graph:
+def build_y0(g, V, warm=None, every=4):
+    """The y0 graph of a case. One graph in [every] (chosen by the case itself, so reproducibly) is built the way an analyst edits a graph:
     part of the nodes and edges, some queries (which a careless cache would remember; [warm] is the calling property's own entry point), then the rest
     through the public add_* methods.
     The underlying networkx graphs receive nodes and edges in the same order either way."""
@@ -134,9 +134,14 @@ def build_y0(g, V, warm=None):
     nodes = [V(i) for i in g["nodes"]]
     directed = [(V(a), V(b)) for a, b in g["dir"]]
     undirected = [(V(a), V(b)) for a, b in g["bid"]]
-    if zlib.crc32(repr((g["nodes"], g["dir"], g["bid"])).encode()) % 5 != 0 or not (directed or undirected):
+    if zlib.crc32(repr((g["nodes"], g["dir"], g["bid"])).encode()) % every != 0 or not (directed or undirected):
         return NxMixedGraph.from_edges(nodes=nodes, directed=directed, undirected=undirected)
     kd, ku = len(directed) // 2, len(undirected) // 2
+    if (zlib.crc32(repr((g["dir"], g["bid"], g["nodes"])).encode()) >> 8) % 2:
+        # the later half of the edges first: generated edge lists tend to be in topological order, and an edit UPSTREAM of what was already
+        # queried is what a stale cache gets wrong (the edge sets are the same; only networkx' insertion order differs)
+        directed, undirected = directed[kd:] + directed[:kd], undirected[ku:] + undirected[:ku]
+        kd, ku = len(directed) - kd, len(undirected) - ku
     # nodes at the end of the node list that the first batch of edges does not touch are added later too (same final node order)
     early = {x for e in directed[:kd] + undirected[:ku] for x in e}
     kn = len(nodes)
